@@ -128,6 +128,37 @@ fn issuer_history(ctx: &Ctx, case: u64, l: &mut Local) {
             fp = crate::rng::mix(fp ^ 0xF00 ^ kind);
             continue;
         }
+        // ---- a call whose holder key is a symmetric or RSA JWK (no key material of ours; only the
+        // confirmation claim is checked): cnf must be exactly this JWK, nothing of an earlier call
+        if r.chance(12) {
+            let jwk = r.pick(&[
+                json!({"kty": "oct", "k": "c2VjcmV0LWhvbGRlci1rZXk", "kid": "holder-key"}),
+                json!({"kty": "RSA", "n": "sXchDaQebHnPiGvyDOAT4saGEUetSyo9MKLOoWFsueri23bOdgWp4Dy1WlUzewbgBHod5pcM9H95GQRV3JDXboIRROSBigeC5yjU1hGzHHyXss8UDprecbAYxknTcQkhslANGRUZmdTOQ5qTRsLAt6BTYuyvVRdhS8exSZEy_c4gs_7svlJJQ4H9_NxsiIoLwAEk7-Q3UXERGYw_75IDrGA84-lA_-Ct4eTlXHBIY2EaV7t7LjJaynVJCpkv4LKjTTAumiGUIuQhrNhZLuF_RJLqHpM2kgWFLU7-VTdL1VbC2tejvcI2BlMkEpk1BzBZI0KQB0GaDWFLN-aEAw3vRw", "e": "AQAB", "kid": "holder-key"}),
+            ]).clone();
+            let parsed: Option<jsonwebtoken::jwk::Jwk> = serde_json::from_value(jwk.clone()).ok();
+            if let Some(pj) = parsed {
+                let canonical = serde_json::to_value(&pj).unwrap_or(Value::Null);
+                let fmt = *r.pick(&[Fmt::Compact, Fmt::Json]);
+                let claims = json!({"iss": "https://issuer.example/A", "exp": 4_000_000_000u64, format!("c#{k}.1;"): "v"});
+                let strat = gen::gen_strategy(&mut r, &claims, StratKind::TopLevel);
+                match api::issue_with_jwk(&mut issuer, &claims, &strat, Some(&jwk), false, fmt) {
+                    Outcome::Ok(text) => {
+                        l.count("issuer.calls.ok");
+                        l.count("issuer.calls.exotic-holder-jwk");
+                        let cnf = Parts::parse(fmt, &text).ok().and_then(|p| p.payload().ok()).map(|p| p["cnf"].clone()).unwrap_or(Value::Null);
+                        if cnf != json!({"jwk": canonical}) {
+                            l.violate(viol(case, "stale-holder-key", &format!("call#{k}"), "cnf is not the holder key given to this call".into(), json!({"given": jwk, "cnf_in_result": cnf, "earlier_calls": summary})));
+                        }
+                    }
+                    p @ Outcome::Panic(..) => l.violate(viol(case, "panic", "issuer-call with exotic holder JWK", p.panic_signature().unwrap(), json!({"jwk": jwk}))),
+                    Outcome::Err(_) => l.count("issuer.calls.exotic-holder-jwk.refused"),
+                }
+                summary.push(json!({"call": k, "kind": "exotic-holder-jwk", "kty": jwk["kty"]}));
+                prev = Some((fmt, false, None, true));
+                fp = crate::rng::mix(fp ^ 0xE07);
+                continue;
+            }
+        }
         // ---- a regular call with independently drawn arguments
         let profile = *r.pick(&PROFILES);
         let skind = *r.pick(&STRAT_KINDS);
